@@ -97,8 +97,8 @@ theorem plainPart_ro (o : Opts) (c : Bool) (attrName : String) (valueN attrValue
 @[simp] theorem getPragma_ro (o : Opts) (st : St) : (getPragma o st).2.ro = st.ro := by
   unfold getPragma
   split
-  · rfl
   · split <;> simp
+  · simp
 
 @[simp] theorem transformTag_ro (env : Env) (n : Node) (st : St) : (transformTag env n st).2.ro = st.ro := by
   unfold transformTag
